@@ -136,7 +136,9 @@ func c11GenMail(r *core.Rand, conf ref.ExtConf) c11Line {
 	if r.Chance(1, 3) {
 		l.HasAuth = true
 		if r.Chance(1, 3) {
-			params = append(params, mixCase(r, "AUTH")+"=<>")
+			// "<>" may itself be xtext-encoded, wholly or in part (RFC 4954 section 5: the value is xtext)
+			sp := []string{"<>", "<>", "<>", "+3C+3E", "<+3E", "+3C>"}
+			params = append(params, mixCase(r, "AUTH")+"="+sp[r.Intn(len(sp))])
 		} else {
 			auths := []string{"e+mc2@example.com", "user@x.test", "a=b@c.test", `"q u"@c.test`}
 			a := auths[r.Intn(len(auths))]
@@ -278,6 +280,9 @@ func c11Run(ctx *core.Ctx) {
 			"MAIL FROM:<a@b.test> ENVID=a=b", "RCPT TO:<a@b.test> NOTIFY=", "RCPT TO:<a@b.test> NOTIFY=NEVER,SUCCESS", "RCPT TO:<a@b.test> NOTIFY=SUCCESS,SUCCESS",
 			"RCPT TO:<a@b.test> NOTIFY=SOMETIMES", "RCPT TO:<a@b.test> ORCPT=rfc822", "RCPT TO:<a@b.test> ORCPT=rfc822;", "RCPT TO:<a@b.test> ORCPT=;a@b", "RCPT TO:<a@b.test> ORCPT=rfc822;a+b",
 			"RCPT TO:<a@b.test> RRVS=yesterday", "RCPT TO:<a@b.test> RRVS=", "RCPT TO:<a@b.test> BAR=1", "RCPT TO:<a@b.test> SIZE=1", "MAIL FROM:<a@b.test> NOTIFY=NEVER",
+			"MAIL FROM:<a@b.test> AUTH=x@y+4", "MAIL FROM:<a@b.test> AUTH=+", "MAIL FROM:<a@b.test> AUTH=a+", "MAIL FROM:<a@b.test> AUTH=+4", "MAIL FROM:<a@b.test> AUTH=+4G",
+			"MAIL FROM:<a@b.test> ENVID=+", "MAIL FROM:<a@b.test> ENVID=a+", "MAIL FROM:<a@b.test> ENVID=+4", "MAIL FROM:<a@b.test> ENVID=a+4", "MAIL FROM:<a@b.test> ENVID=+G0",
+			"RCPT TO:<a@b.test> ORCPT=rfc822;a+", "RCPT TO:<a@b.test> ORCPT=rfc822;a+4", "RCPT TO:<a@b.test> ORCPT=rfc822;+", "RCPT TO:<a@b.test> ORCPT=rfc822;+4", "RCPT TO:<a@b.test> ORCPT=rfc822;a@b+",
 			"MAIL <a@b.test>", "MAIL TO:<a@b.test>", "RCPT FROM:<a@b.test>", "RCPT <a@b.test>", "MAIL FROM:", "RCPT TO:", "MAIL FROM: ", "RCPT TO:<>",
 		}
 		for conf := 0; conf < 32; conf++ {
@@ -331,7 +336,9 @@ func c11Exec(ctx *core.Ctx, c c11Case) {
 	var rig *wire.Rig
 	var p *wire.Peer
 	var all []wire.Reply
+	alive := true
 	open := func() bool {
+		alive = true
 		rig = wire.NewRig(rec.Plain, func(s *smtp.Server) {
 			s.EnableSMTPUTF8, s.EnableREQUIRETLS, s.EnableBINARYMIME, s.EnableDSN, s.EnableRRVS = conf.UTF8, conf.RequireTLS, conf.Binary, conf.DSN, conf.RRVS
 		})
@@ -352,10 +359,13 @@ func c11Exec(ctx *core.Ctx, c c11Case) {
 		rs, err := p.ReadUntilStall()
 		all = append(all, rs...)
 		ctx.Add("replies_parsed", int64(len(rs)))
-		if len(rs) == 0 || err != nil {
+		alive = err == nil
+		if len(rs) == 0 {
 			return wire.Reply{}, false
 		}
-		return rs[len(rs)-1], true
+		// the first reply is the answer to the line (a second one can only be the error-threshold
+		// goodbye); ok also when the server closed afterwards, so that such a line is still judged
+		return rs[0], true
 	}
 	if !open() {
 		closeConn()
@@ -378,9 +388,9 @@ func c11Exec(ctx *core.Ctx, c c11Case) {
 			if strings.HasPrefix(pl, "RCPT") {
 				cmd("MAIL FROM:<s@x.test>")
 			}
-			if pr, ok := cmd(pl); ok && pr.Class() == 2 {
+			if pr, ok := cmd(pl); ok && alive && pr.Class() == 2 {
 				cmd("RSET")
-			} else if !ok {
+			} else if !ok || !alive {
 				closeConn()
 				if !open() {
 					return
@@ -398,7 +408,13 @@ func c11Exec(ctx *core.Ctx, c c11Case) {
 		ctx.Eval(fmt.Sprintf("%d|%s", c.Conf, l.Line), judged)
 		isRcpt := strings.HasPrefix(strings.ToUpper(l.Line), "RCPT")
 		if isRcpt {
-			if r, ok := cmd("MAIL FROM:<s@x.test>"); !ok || r.Code != 250 {
+			if !alive {
+				closeConn()
+				if !open() {
+					return
+				}
+			}
+			if r, ok := cmd("MAIL FROM:<s@x.test>"); !ok || !alive || r.Code != 250 {
 				closeConn()
 				if !open() {
 					return
@@ -406,10 +422,16 @@ func c11Exec(ctx *core.Ctx, c c11Case) {
 				continue
 			}
 		}
+		if !alive {
+			closeConn()
+			if !open() {
+				return
+			}
+		}
 		mark := rig.Log.Len()
 		r, ok := cmd(l.Line)
 		if !ok {
-			// connection gone (error threshold...): reopen, do not judge
+			// no reply at all: reopen, do not judge
 			closeConn()
 			if !open() {
 				return
@@ -425,6 +447,9 @@ func c11Exec(ctx *core.Ctx, c c11Case) {
 		}
 		fail := func(sig, msg string) {
 			ctx.Violate(sig, msg+fmt.Sprintf(" [line=%q flags=%+v]", l.Line, conf), c11Case{Conf: c.Conf, Lines: []c11Line{l}}, witness(rig.Log, all[max(0, len(all)-6):]))
+		}
+		if pm := logPanic(rig.Log.Events()[mark:]); pm != "" {
+			fail("C11:recovered-panic", "the line made the server panic: "+pm)
 		}
 		switch {
 		case l.Valid:
@@ -454,7 +479,15 @@ func c11Exec(ctx *core.Ctx, c c11Case) {
 		default:
 			ctx.Add("unspecified_lines_not_judged", 1)
 		}
-		if rr, ok := cmd("RSET"); !ok || rr.Code != 250 {
+		if !alive {
+			ctx.Add("lines_after_which_the_server_closed", 1)
+			closeConn()
+			if !open() {
+				return
+			}
+			continue
+		}
+		if rr, ok := cmd("RSET"); !ok || !alive || rr.Code != 250 {
 			closeConn()
 			if !open() {
 				return
